@@ -909,9 +909,23 @@ def rawParamVariant (mode : Nat) (c : Case) : Case :=
     | .derive => .derive
   { c with entry, item := c.item.mapIdent f, tags := s!"rawparam={mode}" :: c.tags }
 
-/-- `genItemCase`, with one case in 25 spelling its parameters as raw identifiers -/
+/-- trailing commas as real code writes them: after the last field, the last variant, the last where-predicate -/
+def Item.withTrailing (bits : Nat) : Item → Item
+  | .struct_ s =>
+    .struct_ { s with fields := { s.fields with trailing := bits % 2 == 1 },
+                      generics := { s.generics with trailingWhere := (bits / 2) % 2 == 1 } }
+  | .enum_ e =>
+    .enum_ { e with trailing := bits % 2 == 1,
+                    generics := { e.generics with trailingWhere := (bits / 2) % 2 == 1 },
+                    variants := e.variants.zipIdx.map fun (v, i) =>
+                      { v with fields := { v.fields with trailing := (bits / (4 * 2 ^ i)) % 2 == 1 } } }
+  | .impl_ i => .impl_ { i with generics := { i.generics with trailingWhere := (bits / 2) % 2 == 1 } }
+  | it => it
+
+/-- `genItemCase`, with one case in 25 spelling its parameters as raw identifiers and one in 6 written with trailing commas -/
 def genItemCaseR (cfg : GCfg) (fam : String) (seed idx : Nat) : Case :=
   let c := genItemCase cfg fam seed idx
+  let c := if idx % 6 == 4 then { c with item := c.item.withTrailing (seed * 31 + idx / 6 + 1), tags := "trailing-commas" :: c.tags } else c
   if idx % 25 == 7 then rawParamVariant 0 c else if idx % 25 == 19 then rawParamVariant 1 c else c
 
 /-! ## Metamorphic groups (relations between *real* expansions; no model needed to judge them) -/
